@@ -470,8 +470,12 @@ class Taint:
                 self._assign_target(x, vi, st, None)
 
     def _is_vector_mask(self, value) -> bool:
-        s = ast.unparse(value)
-        return s.startswith("1 - np.array([") and ("== " + (self.nodata or "?")) in s
+        # 1 - array([<missing-cell predicate> for x in series]); the literal may be spelled 1 or 1.0
+        if not (isinstance(value, ast.BinOp) and isinstance(value.op, ast.Sub) and isinstance(value.left, ast.Constant)
+                and not isinstance(value.left.value, bool) and value.left.value == 1):
+            return False
+        s = ast.unparse(value.right)
+        return s.startswith(("np.array([", "array([", "numpy.array([")) and ("== " + (self.nodata or "?")) in s
 
     def run(self):
         self._written = {}
